@@ -1,7 +1,6 @@
 package keeper
 
 import (
-
 	"cosmossdk.io/collections"
 	"cosmossdk.io/math"
 	sdk "github.com/cosmos/cosmos-sdk/types"
